@@ -575,7 +575,7 @@ fn main() {
 
     if args.replay.is_none() {
         // 2. exhaustive small scopes
-        let (la, lb, lc) = if args.thorough() { (5, 5, 4) } else { (4, 4, 3) };
+        let (la, lb, lc) = if args.thorough() { (4, 5, 4) } else { (4, 4, 3) };
         exhaustive(la, 2, &letters_a, &[], &mut cases);
         exhaustive(lb, 2, &letters_b, &[], &mut cases);
         let seeds = [
@@ -601,7 +601,7 @@ fn main() {
         // 3. random histories
         // `fork`: Rng::new(s) and Rng::new(s+1) are the same SplitMix stream shifted by one draw
         let mut rng = Rng::new(args.seed).fork();
-        let n_rand = if args.thorough() { 400_000 } else { 30_000 };
+        let n_rand = if args.thorough() { 250_000 } else { 30_000 };
         for _ in 0..n_rand {
             cases.push(random_case(&mut rng));
         }
